@@ -89,6 +89,51 @@ fn c01(t: &[&str], out: &str) -> R {
     }
 }
 
+/// the small constructors of the two-level types: the result must denote zero / one / x_v / !x_v
+fn fctor(t: &[&str], out: &str) -> R {
+    let (ty, name, n, v) = (t[1], t[2], us(t[3]), us(t[4]));
+    let o: Vec<&str> = out.split_whitespace().collect();
+    if o.len() != 2 || o[0] != "ok" {
+        return Err(format!("{} {}: `{}`", ty, name, out));
+    }
+    let want = |m: usize| match name {
+        "zero" => false,
+        "one" => true,
+        "nthvar" => (m >> v) & 1 != 0,
+        _ => (m >> v) & 1 == 0,
+    };
+    let val: Box<dyn Fn(usize) -> bool> = match ty {
+        "ecube" => {
+            let (w, x) = parse_raw_ecube(o[1]);
+            Box::new(move |m| ecube_val(w, x, m as u32))
+        }
+        "soes" => {
+            let l = parse_raw_ecubes(o[1]);
+            Box::new(move |m| l.iter().any(|(w, x)| ecube_val(*w, *x, m as u32)))
+        }
+        "sop" => {
+            let l = parse_raw_cubes(o[1]);
+            Box::new(move |m| sop_val(&l, m))
+        }
+        _ => {
+            let l = parse_raw_cubes(o[1]);
+            Box::new(move |m| esop_val(&l, m))
+        }
+    };
+    let bits = if ty == "ecube" { 32 } else { n.min(32) };
+    let mut assigns: Vec<usize> = vec![0, (1usize << bits) - 1, 0x5555_5555 & ((1usize << bits) - 1), 0xaaaa_aaaa & ((1usize << bits) - 1)];
+    for i in 0..bits {
+        assigns.push(1usize << i);
+        assigns.push(((1usize << bits) - 1) ^ (1usize << i));
+    }
+    for m in assigns {
+        if val(m) != want(m) {
+            return Err(format!("{}::{}({}, {}) = {} is {} at assignment {:#x}", ty, name, n, v, o[1], val(m), m));
+        }
+    }
+    Ok(true)
+}
+
 // ------------------------------------------------------------------ C03
 
 fn exch(m: usize, i: usize, j: usize) -> usize {
@@ -201,6 +246,33 @@ fn c11(t: &[&str], out: &str) -> R {
 // ------------------------------------------------------------------ C06
 
 fn c06(t: &[&str], out: &str) -> R {
+    if t[0] == "dflags" {
+        // the type itself is judged on the `decomp` line of the same table; here the four
+        // classification helpers must say what their names say
+        let o: Vec<&str> = out.split_whitespace().collect();
+        if o.len() == 1 && o[0] == "panic" {
+            return Ok(false);
+        }
+        if o.len() != 6 || o[0] != "ok" {
+            return Err(format!("dflags: `{}`", out));
+        }
+        let d = o[1];
+        let want = (
+            ["Independent", "Identity", "Negation"].contains(&d),
+            ["And", "Or", "Le", "Lt"].contains(&d),
+            d == "Xor",
+            ["And", "Or", "Le", "Lt", "Xor"].contains(&d),
+        );
+        let got = (o[2] == "1", o[3] == "1", o[4] == "1", o[5] == "1");
+        if want != got {
+            return Err(format!("{}: is_trivial/is_and_type/is_xor_type/is_simple_gate = {:?}, expected {:?}", d, got, want));
+        }
+        let same = run_line(&format!("decomp {} {} {}", t[1], t[2], t[3]));
+        if same != format!("ok {}", d) {
+            return Err(format!("top_decomposition gives `{}` on one call and `ok {}` on the next", same, d));
+        }
+        return Ok(true);
+    }
     let a = parse_tab(t[2]).unwrap();
     let v = us(t[3]);
     if !a.wf() || v >= a.n {
@@ -804,6 +876,25 @@ fn c05(t: &[&str], out: &str) -> R {
 
 fn c10(t: &[&str], out: &str) -> R {
     match t[0] {
+        "linfo" => {
+            let a = parse_tab(t[2]).unwrap();
+            let want = format!("ok {} {} {}", a.n, 1usize << a.n, table_size(a.n));
+            if out != want {
+                return Err(format!("num_vars / num_bits / num_blocks: expected `{}`, implementation says `{}`", want, out));
+            }
+            Ok(true)
+        }
+        "get" => {
+            let a = parse_tab(t[2]).unwrap();
+            let m = us(t[3]);
+            if !a.wf() || m >= (1usize << a.n) {
+                return Ok(false);
+            }
+            if out != format!("ok {}", show_bool(a.bit(m))) {
+                return Err(format!("value({}) of {}: implementation says `{}`", m, a.show(), out));
+            }
+            Ok(true)
+        }
         "s2d" => {
             let a = parse_tab(t[1]).unwrap();
             if !a.wf() {
@@ -967,6 +1058,14 @@ fn c12(t: &[&str], out: &str) -> R {
         return Ok(false);
     }
     match t[1] {
+        "isconstant" => {
+            let (p, q) = parse_raw_cube(t[2]).unwrap();
+            let want = (p == 0 && q == 0) || (p & q != 0);
+            if out != format!("ok {}", show_bool(want)) {
+                return Err(format!("is_constant of {:x}/{:x}: expected {}, implementation says `{}`", p, q, want, out));
+            }
+            Ok(true)
+        }
         "value" => {
             let (p, q) = parse_raw_cube(t[2]).unwrap();
             let m = hexu(t[3]) as u32;
@@ -1162,6 +1261,9 @@ fn parse_raw_cubes(s: &str) -> Vec<(u32, u32)> {
 }
 
 fn c13(t: &[&str], out: &str) -> R {
+    if t[0] == "fctor" {
+        return fctor(t, out);
+    }
     match (t[0], t[1]) {
         ("ecube", "value") => {
             let (v, x) = parse_raw_ecube(t[2]);
@@ -1328,6 +1430,9 @@ fn irredundant(r: &[(u32, u32)]) -> Result<(), String> {
 }
 
 fn c14(t: &[&str], out: &str) -> R {
+    if t[0] == "fctor" {
+        return fctor(t, out);
+    }
     if t[0] != "sop" {
         return Ok(false);
     }
@@ -1400,6 +1505,9 @@ fn c14(t: &[&str], out: &str) -> R {
 }
 
 fn c15(t: &[&str], out: &str) -> R {
+    if t[0] == "fctor" {
+        return fctor(t, out);
+    }
     if t[0] != "esop" {
         return Ok(false);
     }
